@@ -154,10 +154,10 @@ def check(case, out):
 
 
 FACETS = [
-    Facet("valid-exact", lambda tier: cases(("frac", "frac", "fracint")), check, quick=700, thorough=16000,
+    Facet("valid-exact", lambda tier: cases(("frac", "frac", "fracint")), check, quick=1500, thorough=16000,
           rule="valid requests, Fraction data, exact decision"),
     Facet("invalid", lambda tier: cases(("frac", "float"), ("outside", "mult", "end")), check,
-          quick=400, thorough=6000, rule="invalid requests must raise ValueError and leave the curve unchanged"),
-    Facet("valid-float", lambda tier: cases(("float", "npfloat"), pmax=4, kmax=3), check, quick=300, thorough=5000,
+          quick=800, thorough=6000, rule="invalid requests must raise ValueError and leave the curve unchanged"),
+    Facet("valid-float", lambda tier: cases(("float", "npfloat"), pmax=4, kmax=3), check, quick=600, thorough=5000,
           rule="valid requests, float data, 1e-9"),
 ]
